@@ -668,6 +668,7 @@ package analysis
 //@   ensures result == nil ==> synced(opts.Spec)
 //@   ensures opts.Spec == old(opts.Spec) && opts.Spec.spec == old(opts.Spec.spec)
 //@   loop 1: invariant synced(opts.Spec) && opts != nil && opts.Spec == old(opts.Spec) && opts.Spec.spec == old(opts.Spec.spec)
+//@   loop 1: invariant old(opts.flattenContext) != nil ==> opts.flattenContext == old(opts.flattenContext)
 
 //@ func nameInlinedSchemas(opts)
 //@   requires opts != nil && opts.Spec != nil && opts.Spec.spec != nil && strfmt.Default != nil
